@@ -24,7 +24,7 @@ theorem chainEnd_last (cur e : SState) (l : List Notif) (h : chainEnd cur l = so
 
 /-- the manager's listener is the first listener of the service, registered before any transition, never removed. -/
 def HeadOK (sn : List Notif) (ls : List Lsn) : Prop :=
-  ∃ l0 rest, ls = l0 :: rest ∧ l0.id = 0 ∧ l0.removed = false ∧ l0.regAt = 0 ∧ l0.seen = sn
+  ∃ l0 rest, ls = l0 :: rest ∧ l0.id = 0 ∧ l0.removed = false ∧ l0.regAt = 0 ∧ l0.seen = sn ∧ l0.busy = false
 
 theorem headOK_notify (sn : List Notif) (n : Notif) (c : Bool) (ls : List Lsn) (h : HeadOK sn ls) :
     HeadOK sn (notify n c ls).1 := by
@@ -53,6 +53,14 @@ theorem headOK_deliverTo (sn : List Notif) (id : Nat) (hid : id ≠ 0) (ls : Lis
   rw [if_neg (by rw [h1]; exact fun h => hid h.1.symm)]
   exact ⟨l0, _, rfl, h1, h2, h3, h4⟩
 
+theorem headOK_endTo (sn : List Notif) (id : Nat) (ls : List Lsn) (h : HeadOK sn ls) : HeadOK sn (endTo id ls) := by
+  obtain ⟨l0, rest, rfl, h1, h2, h3, h4, h5⟩ := h
+  simp only [endTo]
+  split
+  · rw [if_neg (by simp [h5])]
+    exact ⟨l0, _, rfl, h1, h2, h3, h4, h5⟩
+  · exact ⟨l0, _, rfl, h1, h2, h3, h4, h5⟩
+
 theorem headOK_append (sn : List Notif) (x : Lsn) (ls : List Lsn) (h : HeadOK sn ls) : HeadOK sn (ls ++ [x]) := by
   obtain ⟨l0, rest, rfl, h1, h2, h3, h4⟩ := h
   exact ⟨l0, rest ++ [x], rfl, h1, h2, h3, h4⟩
@@ -61,7 +69,8 @@ theorem headOK_append (sn : List Notif) (x : Lsn) (ls : List Lsn) (h : HeadOK sn
 theorem step_lsns_cases (s : Svc) (e : Ev) :
     (step s e).lsns = s.lsns ∨ (∃ n c, (step s e).lsns = (notify n c s.lsns).1) ∨
     (∃ x, (step s e).lsns = s.lsns ++ [x]) ∨ (∃ id, e = .removeListener id ∧ (step s e).lsns = removeFrom id s.lsns) ∨
-    (∃ id, e = .deliver id ∧ (step s e).lsns = deliverTo id s.lsns) := by
+    (∃ id, e = .deliver id ∧ (step s e).lsns = deliverTo id s.lsns) ∨
+    (∃ id, (step s e).lsns = endTo id s.lsns) := by
   cases e <;> simp only [step] <;> (try unfold tau Svc.mustSwitch) <;> (repeat' split) <;>
     (try simp only []) <;> (repeat' split) <;>
     first
@@ -69,22 +78,24 @@ theorem step_lsns_cases (s : Svc) (e : Ev) :
       | exact Or.inr (Or.inl ⟨_, _, rfl⟩)
       | exact Or.inr (Or.inr (Or.inl ⟨_, rfl⟩))
       | exact Or.inr (Or.inr (Or.inr (Or.inl ⟨_, rfl, rfl⟩)))
-      | exact Or.inr (Or.inr (Or.inr (Or.inr ⟨_, rfl, rfl⟩)))
+      | exact Or.inr (Or.inr (Or.inr (Or.inr (Or.inl ⟨_, rfl, rfl⟩))))
+      | exact Or.inr (Or.inr (Or.inr (Or.inr (Or.inr ⟨_, rfl⟩))))
       | exact Or.inl trivial
 
 theorem step_headOK (s : Svc) (e : Ev) (sn : List Notif) (h : HeadOK sn s.lsns)
     (he : ¬ (e = .deliver 0 ∨ e = .removeListener 0)) : HeadOK sn (step s e).lsns := by
-  rcases step_lsns_cases s e with h1 | ⟨n, c, h1⟩ | ⟨x, h1⟩ | ⟨id, he1, h1⟩ | ⟨id, he1, h1⟩
+  rcases step_lsns_cases s e with h1 | ⟨n, c, h1⟩ | ⟨x, h1⟩ | ⟨id, he1, h1⟩ | ⟨id, he1, h1⟩ | ⟨id, h1⟩
   · rw [h1]; exact h
   · rw [h1]; exact headOK_notify sn n c _ h
   · rw [h1]; exact headOK_append sn x _ h
   · rw [h1]; exact headOK_removeFrom sn id (fun h0 => he (Or.inr (by rw [he1, h0]))) _ h
   · rw [h1]; exact headOK_deliverTo sn id (fun h0 => he (Or.inl (by rw [he1, h0]))) _ h
+  · rw [h1]; exact headOK_endTo sn id _ h
 
 theorem viewOf_of_head (s : Svc) (sn : List Notif) (h : HeadOK sn s.lsns) :
     viewOf s = (sn.getLast?.map Notif.to).getD .new := by
   obtain ⟨l0, rest, hl, _, _, _, h4⟩ := h
-  simp [viewOf, hl, h4]
+  simp [viewOf, hl, h4.1]
 
 /-- what the system invariant says about one service. -/
 def SOK (s : Svc) : Prop := Core s ∧ ∃ sn, HeadOK sn s.lsns
@@ -107,10 +118,21 @@ theorem sok_step (s : Svc) (e : Ev) (h : SOK s) (he : ¬ (e = .deliver 0 ∨ e =
   have h2 := step_headOK s e sn hh he
   exact ⟨⟨core_step s e hc, sn, h2⟩, by rw [viewOf_of_head _ sn h2, viewOf_of_head _ sn hh]⟩
 
+/-- what `handover` does to the service: the manager's listener takes the notification, runs
+`serviceStateChanged` and returns. -/
+def handStep (s : Svc) : Svc := step (step s (.deliver 0)) (.deliverEnd 0)
+
+theorem handStep_lsns (s : Svc) (l0 : Lsn) (rest : List Lsn) (n : Notif) (q : List Notif) (hl : s.lsns = l0 :: rest)
+    (h1 : l0.id = 0) (h2 : l0.removed = false) (h5 : l0.busy = false) (hq : l0.queue = n :: q) :
+    (handStep s).lsns = { l0 with queue := q, seen := l0.seen ++ [n], busy := false, inCb := l0.inCb + 1 - 1 } :: rest := by
+  simp only [handStep, step, hl, deliverTo]
+  rw [if_pos ⟨h1, by simp [h2]⟩, if_neg (by simp [h5]), hq]
+  simp [endTo, h1]
+
 /-- the hand-over of the next notification: it is a legal edge out of the manager's current view. -/
 theorem sok_handover (s : Svc) (n : Notif) (h : SOK s) (hn : nextForManager s = some n) :
-    SOK (step s (.deliver 0)) ∧ viewOf (step s (.deliver 0)) = n.to ∧ n.frm = viewOf s ∧ legalEdge n.frm n.to = true := by
-  obtain ⟨hc, sn, l0, rest, hl, h1, h2, h3, h4⟩ := h
+    SOK (handStep s) ∧ viewOf (handStep s) = n.to ∧ n.frm = viewOf s ∧ legalEdge n.frm n.to = true := by
+  obtain ⟨hc, sn, l0, rest, hl, h1, h2, h3, h4, h5⟩ := h
   have hq : ∃ q, l0.queue = n :: q := by
     simp only [nextForManager, hl] at hn
     rw [if_pos ⟨h1, h2⟩] at hn
@@ -122,10 +144,8 @@ theorem sok_handover (s : Svc) (n : Notif) (h : SOK s) (hn : nextForManager s = 
   have hview : viewOf s = cur := by
     rw [chainEnd_last _ _ _ hcur]
     simp [viewOf, hl]
-  have hls : (step s (.deliver 0)).lsns = { l0 with queue := q, seen := l0.seen ++ [n] } :: rest := by
-    simp only [step, hl, deliverTo]
-    rw [if_pos ⟨h1, by simp [h2]⟩, hq]
-  refine ⟨⟨core_step s _ hc, l0.seen ++ [n], _, rest, hls, h1, h2, h3, rfl⟩, ?_, ?_, ?_⟩
+  have hls := handStep_lsns s l0 rest n q hl h1 h2 h5 hq
+  refine ⟨⟨core_step _ _ (core_step s _ hc), l0.seen ++ [n], _, rest, hls, h1, h2, h3, rfl, rfl⟩, ?_, ?_, ?_⟩
   · simp [viewOf, hls]
   · rw [hview]; exact hfrm
   · rw [hfrm]; exact hedge
@@ -169,7 +189,8 @@ theorem yinv_step (y : System) (e : SysEv) (h : YInv y) : YInv (y.step e) := by
           rcases List.mem_or_eq_of_mem_set hs' with h' | rfl
           · exact h.svcs s' h'
           · exact h1
-        · simp only [List.map_set, h2]
+        · have h2' : viewOf (step (step s (.deliver 0)) (.deliverEnd 0)) = n.to := h2
+          simp only [List.map_set, h2']
           exact minv_changed _ _ i n h.mgr hle
       · exact h
     · exact h
@@ -191,7 +212,7 @@ theorem yinv_init (cfgs : List (Bool × Bool × Bool)) (hne : cfgs ≠ []) : YIn
       viewOf (step (init c.1 c.2.1 c.2.2) .addListener) = .new := by
     intro c
     have hh : HeadOK [] (step (init c.1 c.2.1 c.2.2) .addListener).lsns :=
-      ⟨{ id := 0, regAt := 0 }, [], by simp [step, init, SState.terminal], rfl, rfl, rfl, rfl⟩
+      ⟨{ id := 0, regAt := 0 }, [], by simp [step, init, SState.terminal], rfl, rfl, rfl, rfl, rfl⟩
     exact ⟨⟨core_step _ _ (core_init _ _ _), [], hh⟩, by rw [viewOf_of_head _ [] hh]; rfl⟩
   have hviews : (System.init cfgs).svcs.map viewOf = List.replicate cfgs.length .new := by
     simp only [System.init, List.map_map]
